@@ -85,7 +85,7 @@ Scan(k) == LET I == {i \in 1..Len(clog) : clog[i].key = k /\ clog[i].off <= hw}
 \* from that (the forward reader retries until the swap): the scan succeeds only if
 \* it starts in a segment that was not rewritten and finds the key before it has to
 \* step down into a rewritten one; otherwise the fetch fails with Internal.
-\* (Before fix 7e... a scan starting inside a rewritten segment read it as empty and
+\* (Before fix a85cb4c a scan starting inside a rewritten segment read it as empty and
 \* could answer "no cursor" (-1), which was then cached.)
 ScanErr(k) ==
   /\ cln.on /\ cln.n >= 2 /\ cln.n <= Len(segs) /\ hw # -1 /\ clog # <<>>
